@@ -4,8 +4,8 @@ dropped) is compared with the text this model was written from (tools/maptarget_
 (Dyn/MapTargetGen.v), otherwise UNTRANSLATABLE — any edit of the function fails the obligation until the model is revised.  The model is tied to the
 implementation additionally by the table-world correspondence (suites/target_corr.py, mode `mapping`).  It is written in the monad and over the
 abstract observations of Dyn/TargetGen.v.  Reading of the Python: as in target2v.py; in addition `scopes` is a tuple after the re-assignment at the
-top of resolve_from_expr (never None), so `and scopes` / `scopes or …` are truth tests of that tuple; the default of resolve_nested is that
-re-assigned tuple (the def follows the re-assignment); the inline `while isinstance(argument, Parenthesis): argument = argument.value` is the loop of
+top of resolve_from_expr (never None), so `and scopes` / `scopes or …` are truth tests of that tuple; the default of resolve_nested is the chain the node was GIVEN (`inherited`, bound before the
+re-assignment; since the repair of F-64), which the assert / let / lambda / parenthesis arms hand on; the inline `while isinstance(argument, Parenthesis): argument = argument.value` is the loop of
 _strip_parentheses (the same abstract `strip_parens`; an absent argument stays absent).          usage: maptarget2v.py REPO"""
 import ast, sys, os
 sys.path.insert(0, os.path.dirname(os.path.abspath(__file__)))
@@ -56,8 +56,8 @@ Fixpoint resolve_from_expr (fuel : nat) (target : N) (scopes : option SC) {struc
   bind (visit N store target) (fun _ =>
   bind (match scopes with None => get_scopes target | Some sc => ret sc end) (fun sc =>
   match cls_of target with
-  | CAssertion => match attr_body target with None => raiseV | Some b => resolve_from_expr fuel_ b (Some sc) end
-  | CLet => match attr_value target with Some v => resolve_from_expr fuel_ v (Some sc) | None => raiseV end
+  | CAssertion => match attr_body target with None => raiseV | Some b => resolve_from_expr fuel_ b scopes end
+  | CLet => match attr_value target with Some v => resolve_from_expr fuel_ v scopes | None => raiseV end
   | CFunDef =>
       bind (match attr_output target with
             | Some o => if is_cls N cls_of o CCall then call_argument sc (attr_argument o) else ret None
@@ -66,7 +66,7 @@ Fixpoint resolve_from_expr (fuel : nat) (target : N) (scopes : option SC) {struc
       | Some a => ret a
       | None => match attr_output target with
                 | None => raiseV
-                | Some o => try_valueerror N store (resolve_from_expr fuel_ o (Some sc)) raiseV
+                | Some o => try_valueerror N store (resolve_from_expr fuel_ o scopes) raiseV
                 end
       end)
   | CWith =>
@@ -79,7 +79,7 @@ Fixpoint resolve_from_expr (fuel : nat) (target : N) (scopes : option SC) {struc
       bind (if truthy identifier_scopes then do_set_ctx N SC store set_ctx target identifier_scopes else ret tt) (fun _ =>
       bind (get_value N store ident_value target) (fun resolved =>
       resolve_from_expr fuel_ resolved (Some identifier_scopes))))
-  | CParen => match attr_value target with Some v => resolve_from_expr fuel_ v (Some sc) | None => raiseV end
+  | CParen => match attr_value target with Some v => resolve_from_expr fuel_ v scopes | None => raiseV end
   | CSet => ret target
   | CCall => bind (call_argument sc (attr_argument target)) (fun hit => match hit with Some a => ret a | None => raiseV end)
   | COther => raiseV
